@@ -1,4 +1,5 @@
 import PW.Proofs.LayoutLemmas
+import PW.Proofs.RoutingLemmas
 /-!
 # C20 — product spaces are joined only when needed; bystander blocks are untouched
 
@@ -32,6 +33,20 @@ theorem unmeasured_block_untouched (l : Layout) (M : List Nat) (b : Block) (hb :
     (hne : b.members ≠ []) (hm : ∀ x ∈ b.members, x ∉ M) : b ∈ removeMeasured l M :=
   removeMeasured_bystander l M b hb hne hm
 
+/-- the full routing of `apply_operation` (join what holds the operands, move resized Focks to the
+front): a block that holds none of the operands is afterwards the same record -/
+theorem bystander_untouched_by_operation (l : Layout) (c : Nat) (T focks : List Nat) (b : Block)
+    (hb : b ∈ l) (hwf : (allMembers l).Nodup) (hm : meets T b = false) (hf : ∀ f ∈ focks, f ∈ T) :
+    b ∈ PW.Routing.actOp l c T focks := PW.Routing.actOp_bystander l c T focks b hb hwf hm hf
+
+theorem bystander_untouched_by_reorder (l : Layout) (c : Nat) (T : List Nat) (b : Block) (hb : b ∈ l)
+    (hm : meets T b = false) : b ∈ reorder l c T := PW.Routing.reorder_bystander l c T b hb hm
+
+/-- a request on one subsystem (operation, channel, partial trace, resize routed through the member)
+leaves every block that does not hold it untouched -/
+theorem bystander_untouched_by_member_request (l : Layout) (t : Nat) (r : Bool) (b : Block) (hb : b ∈ l)
+    (hm : t ∉ b.members) : b ∈ PW.Routing.memberFront l t r := PW.Routing.memberFront_bystander l t r b hb hm
+
 /-- non-vacuity: CNOT on subsystems 1 and 3 of [own 0], [env 1 2], [own 3], [ps 4 5] joins exactly
 the envelope block and subsystem 3 and leaves the others -/
 example : combine [⟨.own, [0]⟩, ⟨.env, [1, 2]⟩, ⟨.own, [3]⟩, ⟨.ps 0, [4, 5]⟩] 0 [1, 3]
@@ -45,3 +60,6 @@ end PW.Props.C20
 #print axioms PW.Props.C20.single_target_never_enlarges
 #print axioms PW.Props.C20.measured_subsystem_leaves
 #print axioms PW.Props.C20.unmeasured_block_untouched
+#print axioms PW.Props.C20.bystander_untouched_by_operation
+#print axioms PW.Props.C20.bystander_untouched_by_reorder
+#print axioms PW.Props.C20.bystander_untouched_by_member_request
